@@ -137,6 +137,25 @@ pub fn ztable_for_stream(e: CompressionEncoding, bytes: &[u8]) -> Vec<(Option<Ve
     out
 }
 
+/// largest declared length ≤ `limit` found by a naive header walk (stops at the first
+/// over-limit or incomplete frame)
+pub fn declared_within(bytes: &[u8], limit: usize) -> usize {
+    let mut best = 0;
+    let mut i = 0;
+    while i + 5 <= bytes.len() {
+        let len = u32::from_be_bytes([bytes[i + 1], bytes[i + 2], bytes[i + 3], bytes[i + 4]]) as usize;
+        if len > limit {
+            break;
+        }
+        best = best.max(len);
+        if i + 5 + len > bytes.len() {
+            break;
+        }
+        i += 5 + len;
+    }
+    best
+}
+
 pub fn naive_frame_count(bytes: &[u8]) -> usize {
     let mut n = 0;
     let mut i = 0;
@@ -378,11 +397,20 @@ fn exec_dec_with(t: &[&str], prost: bool) -> String {
         })
         .collect();
     let after = std::sync::Arc::new(std::sync::atomic::AtomicUsize::new(0));
+    let total_data: usize = evs.iter().map(|e| if let BodyEv::Data(d) = e { d.len() } else { 0 }).sum();
+    let all_data: Vec<u8> = evs.iter().flat_map(|e| if let BodyEv::Data(d) = e { d.clone() } else { vec![] }).collect();
     let body = ScriptedBody { evs, polls_after_end: after.clone() };
     let bs = BufferSettings::new(buf_size, 32 * 1024);
     let waker = noop_waker();
     let mut cx = Context::from_waker(&waker);
     let mut out = Vec::new();
+    // allocation budget for this case: a generous multiple of everything the decoder may
+    // legitimately hold (received bytes, decompression scratch), far below any refused length
+    // … plus twice the largest length a header within the limit announces (the decoder may
+    // reserve that much; what it must never do is reserve for a length over the limit)
+    let limit = if t[1] == "empty" { 4 * 1024 * 1024 } else { max.unwrap_or(4 * 1024 * 1024) };
+    let budget = 64 * (total_data + buf_size) + 1024 * 1024 + 2 * declared_within(&all_data, limit);
+    reset_max_alloc();
     macro_rules! mk {
         ($dec:expr) => {
             if t[1] == "req" {
@@ -420,6 +448,9 @@ fn exec_dec_with(t: &[&str], prost: bool) -> String {
             break;
         }
     }
+    // largest single allocation made while decoding, against the budget
+    let biggest = max_alloc();
+    out.push(if biggest > budget { "a1".to_string() } else { "a0".to_string() });
     out.join(" ")
 }
 
